@@ -844,6 +844,7 @@ class Models:
             if tid is None:
                 tid = st.new_type()
                 self.dim_types[dk] = tid
+                st.type_dims[tid] = dict(nz)
         u = UnitV(st.new_unit(tid, mu=t.mag))
         return u
 
